@@ -484,6 +484,102 @@ fn c13_buffered_union_prog1() {
     std::mem::forget(ds);
 }
 
+/// Leaf for the window-crossing programs: the dense range [0, dense_end) followed by the ids of
+/// `arr` (all >= dense_end). `fill_buffer` hands out 64 ids per call, so a partial fill needs a
+/// union of more than 64 documents; the dense part is concrete, the tail symbolic.
+#[derive(Clone, Copy)]
+pub(crate) struct DenseThenArr {
+    pub dense_end: DocId,
+    pub pos: DocId,
+    pub arr: Arr,
+}
+
+impl DocSet for DenseThenArr {
+    fn advance(&mut self) -> DocId {
+        if self.pos < self.dense_end {
+            self.pos += 1;
+        } else {
+            self.arr.advance();
+        }
+        self.doc()
+    }
+    fn doc(&self) -> DocId {
+        if self.pos < self.dense_end {
+            self.pos
+        } else {
+            self.arr.doc()
+        }
+    }
+    fn size_hint(&self) -> u32 {
+        self.dense_end + self.arr.len as u32
+    }
+}
+
+/// BufferedUnionScorer over A = [0, 66) (score 1) and B = <= 2 symbolic ids in [lo_b, 9000)
+/// (score 2), SumCombiner. Program: one `fill_buffer` (hands out 0..63, leaves the scorer on 64),
+/// then four `advance` calls, which cross into the window(s) of B's ids: 65, b0, b1, end, end.
+/// Every id and every score read is compared with the sorted union.
+fn buffered_union_fill_then_advance(lo_b: DocId) {
+    let a = DenseThenArr { dense_end: 66, pos: 0, arr: Arr::empty() };
+    let barr = Arr::any(9000, 2);
+    if barr.len > 0 {
+        kani::assume(barr.docs[0] >= lo_b);
+    }
+    let b = DenseThenArr { dense_end: 0, pos: 0, arr: barr };
+    let in_a = |d: DocId| d < 66;
+    let score_of = |d: DocId| (if in_a(d) { 1.0 } else { 0.0 }) + (if barr.contains(d) { 2.0 } else { 0.0 });
+    let mut ds: BufferedUnionScorer<ConstScorer<DenseThenArr>, SumCombiner> = BufferedUnionScorer::build(
+        vec![ConstScorer::new(a, 1.0), ConstScorer::new(b, 2.0)],
+        SumCombiner::default,
+        9000,
+    );
+    assert_eq!(ds.doc(), 0);
+    assert!(ds.score() == score_of(0));
+    let mut buf = [0u32; COLLECT_BLOCK_BUFFER_LEN];
+    let n = ds.fill_buffer(&mut buf);
+    assert_eq!(n, COLLECT_BLOCK_BUFFER_LEN);
+    let k: usize = kani::any();
+    kani::assume(k < COLLECT_BLOCK_BUFFER_LEN);
+    assert_eq!(buf[k], k as u32);
+    assert_eq!(ds.doc(), 64);
+    // the rest of the union, in order: 65, then B's ids >= 66
+    let mut expect = [TERMINATED; 4];
+    expect[0] = 65;
+    let mut w = 1;
+    let mut i = 0;
+    while i < 2 {
+        if i < barr.len && barr.docs[i] >= 66 {
+            expect[w] = barr.docs[i];
+            w += 1;
+        }
+        i += 1;
+    }
+    let mut j = 0;
+    while j < 4 {
+        let d = ds.advance();
+        assert_eq!(d, expect[j]);
+        assert_eq!(ds.doc(), d);
+        if d != TERMINATED {
+            assert!(ds.score() == score_of(d));
+        }
+        j += 1;
+    }
+    kani::cover!(barr.len == 2 && barr.docs[0] - 4096 < 60, "B starts a second window that reuses drained slots");
+    std::mem::forget(ds);
+}
+
+#[kani::proof]
+#[kani::unwind(5)]
+fn c13_buffered_union_fill_then_advance_far() {
+    buffered_union_fill_then_advance(4096);
+}
+
+#[kani::proof]
+#[kani::unwind(5)]
+fn c13_buffered_union_fill_then_advance_any() {
+    buffered_union_fill_then_advance(0);
+}
+
 // ---------------------------------------------------------------------------------------------
 // leaf / wrapper doc sets
 // ---------------------------------------------------------------------------------------------
